@@ -32,6 +32,7 @@ func TestC18_NetPools(t *testing.T) {
 		t.Fatalf("infrastructure: rpc server not listening")
 	}
 	ev.CheckScaled(t, c18, 1, 4, func(rt *rapid.T) {
+		defer drawSched(rt).install()() // seeded yields at the library's schedule points
 		k := rapid.IntRange(2, 6).Draw(rt, "scenarios")
 		type scen struct {
 			cfg     netConfig
@@ -110,6 +111,7 @@ func TestC18_NetPools(t *testing.T) {
 func TestC18_ServerLifecycle(t *testing.T) {
 	ev.Rule(c18, "server lifecycle: start/stop cycles of mpx and rpc servers with no connection, with an idle connection and with a finished echo, concurrently from several goroutines; oracle: Start and Stop succeed in bounded time and (thorough tier) the race detector reports no unsynchronised access inside the module")
 	ev.CheckScaled(t, c18, 1, 8, func(rt *rapid.T) {
+		defer drawSched(rt).install()() // seeded yields at the library's schedule points
 		g := rapid.IntRange(1, 4).Draw(rt, "goroutines")
 		modes := make([]int, g)
 		for i := range modes {
